@@ -27,6 +27,19 @@ itself and behind wrapper steps.  `couplevec` hands `coupling_correction_2d` ARR
 floats) and compares every entry with the pair evaluated on its own and with the decomposition into the two
 one-dimensional factors at that pair's own distance (the model computes the decomposition, the Stimson-Jeffery factor
 is handed to it).
+
+Private names of the library (robustness against behaviour-preserving refactorings):
+  * the anchored functions are looked up by NAME (`_Anchored`): in the `detail` module the anchor names while it exists,
+    else in whichever loaded module of lumicks.pylake.force_calibration carries the function now - a moved / renamed /
+    merged private module does not break the tie; a function that is gone under its name does (TieBroken);
+  * private members of the model object are used only while they are reachable (`priv`), each with a PUBLIC route to the
+    same observation behind it: `_motion_blur` / `_alias_model` -> the anchored wrapper functions around the public
+    `__call__` (`derive`); `_set_drag` and the `_filter` slot -> the model object the public `calibrate_force(..., drag=… /
+    fixed_diode=…, fixed_alpha=…)` hands back (`calibrated_model`); `_drag`, `_drag_correction_factor` -> kappa of the
+    public `calibration_results` (`public_drag`); `salty_water._density_of_salt_solution` -> the public
+    `density_of_water` at the corresponding molarity; the filter's own value -> the FixedDiodeModel object the harness made;
+  * `_to_local_drag_coefficient` has no cheap public route (only active calibration reports it): observed while reachable,
+    otherwise "?" - an unobserved value, which neither `agree` nor the oracle looks at (`unobserved`).
 """
 import cmath
 import math
@@ -119,6 +132,7 @@ ASSUMPTIONS = [
     "Stimson-Jeffery series, equipartition of the hydrodynamic spectrum, monotonicity of the salt models: explored by the oracle only (no theorem)",
     "2-D coupling: the theorems are about the decomposition GIVEN the two one-dimensional factors (bounds and limit of the 2-D factor follow from those of the Goldman factor, a theorem, and of the Stimson-Jeffery factor, explored); the model is handed the implementation's own Stimson-Jeffery factor at each pair's distance; arrays of bead pairs keep separations >= 2.0045 radii (closer: the scalar `couple` cases; the series needs ~1/sqrt(gap) summands per pair and call), dx and dy have the same length (a float against an array is not documented to broadcast)",
     "fixed diode filter: installed the way calibrate_force does (model._filter = FixedDiodeModel(fixed_diode, fixed_alpha)) on models built with fast_sensor=False, BEFORE wrappers are derived; every call passes exactly the free parameters (f_diode first)",
+    "private members of the library are used while they are reachable under the names of the pinned tree; when one is not (renamed by a refactoring) the same observation is made through a public route (calibrate_force(...).model for the drag transfer and the fixed filter, on one fixed synthetic trace, a fit that fails or takes more than a second skips the case; kappa of calibration_results for the corrected drag; the wrapper functions around __call__ for the wrapper methods; density_of_water for the salt-solution density) or, for the local drag factor of the hydrodynamic model, not at all ('?': ignored by the comparison and the oracle)",
 ]
 
 PI = math.pi
@@ -127,15 +141,174 @@ OUTSIDE = "outside-model"
 # ------------------------------------------------------------------ implementation access
 
 
+class TieLost(ImportError):
+    """an anchored function cannot be reached under its name any more"""
+
+
+_FC = "lumicks.pylake.force_calibration."
+_RESOLVED = {}
+MISSING = object()
+
+
+class _Anchored:
+    """The functions of one anchored module, looked up by NAME.  Where a function lives is private bookkeeping of the
+    library (`detail` is a private path): it is taken from the module the anchor names while that module exists, and -
+    when the module was moved, renamed, split or merged - from whichever loaded module of lumicks.pylake.force_calibration
+    defines or imports a function of that name now (importing lumicks.pylake loads all of them).  A function that is gone
+    under its NAME is a lost tie (`TieLost`, an ImportError: common.errname reports it as TieBroken) unless the caller
+    knows a public route to the same observation and catches it at the point of access."""
+
+    def __init__(self, module):
+        self._module = _FC + module
+
+    def __getattr__(self, name):
+        key = (self._module, name)
+        if key not in _RESOLVED:
+            _RESOLVED[key] = self._find(name)
+        if _RESOLVED[key] is None:
+            raise TieLost(f"{name} (anchored in {self._module}) is not reachable under that name", name=name)
+        return _RESOLVED[key]
+
+    def _find(self, name):
+        import importlib
+        import sys
+
+        try:
+            fn = getattr(importlib.import_module(self._module), name, None)
+        except ImportError:
+            fn = None
+        if fn is not None:
+            return fn
+        import lumicks.pylake  # noqa: F401  (loads every module of the package)
+
+        found = {}
+        for mname in sorted(sys.modules):
+            mod = sys.modules[mname]
+            if mod is not None and mname.startswith(_FC[:-1]) and ".tests" not in mname:
+                obj = vars(mod).get(name)
+                if callable(obj):
+                    found[id(obj)] = obj
+        return next(iter(found.values())) if len(found) == 1 else None
+
+
 def _mods():
-    from lumicks.pylake.force_calibration.detail import power_models as pm
-    from lumicks.pylake.force_calibration.detail import hydrodynamics as hy
-    from lumicks.pylake.force_calibration.detail import drag_models as dm
-    from lumicks.pylake.force_calibration.detail import salty_water as sw
-    from lumicks.pylake.force_calibration import calibration_models as cm
     import lumicks.pylake as lk
 
-    return pm, hy, dm, sw, cm, lk
+    return (_Anchored("detail.power_models"), _Anchored("detail.hydrodynamics"), _Anchored("detail.drag_models"),
+            _Anchored("detail.salty_water"), _Anchored("calibration_models"), lk)
+
+
+def priv(obj, name):
+    """a PRIVATE attribute of a library object while it is reachable, else MISSING (renamed or inlined by a refactoring:
+    bookkeeping the property does not speak about - the caller takes the public route to the same observation, or skips
+    it with "?")"""
+    try:
+        return getattr(obj, name)
+    except AttributeError:
+        return MISSING
+
+
+def derive(pm, cur, st):
+    """one wrapper step on a model object: the model's own private method (what the library's camera calibration uses)
+    while it is reachable; otherwise the anchored wrapper function of power_models around the object's public __call__ -
+    the same published equation, composed in the same order"""
+    meth = priv(cur, "_motion_blur" if st[0] == "B" else "_alias_model")
+    if meth is not MISSING:
+        return meth(st[1]) if st[0] == "B" else meth(st[1], st[2])
+    return pm.motion_blur_spectrum(cur, st[1]) if st[0] == "B" else pm.alias_spectrum(cur, st[1], st[2])
+
+
+def public_drag(model):
+    """the corrected drag coefficient (bulk drag x wall correction) as the public calibration_results reports it:
+    kappa [pN/nm] = 2 pi gamma fc 1e3, asked at fc = 1 Hz (a product and a quotient away from the private property)"""
+    res = model.calibration_results(1.0, 1.0, [], 0.0, 0.0, [])
+    return float(res["kappa"].value) / (2 * PI * 1e3)
+
+
+def corrected_drag(model):
+    v = priv(model, "_drag")
+    return public_drag(model) if v is MISSING else v
+
+
+def wall_correction(model):
+    v = priv(model, "_drag_correction_factor")
+    return public_drag(model) / model.drag_coeff if v is MISSING else v
+
+
+def local_drag_factor(model):
+    """zero-frequency drag of the hydrodynamic model relative to bulk: only the active calibration's results show it
+    publicly; the same number is calculate_complex_drag(f=0, gamma0=1, ...), which the `drag` cases tie at f = 0"""
+    v = priv(model, "_to_local_drag_coefficient")
+    return None if v is MISSING else scalar(v)
+
+
+def model_state(model, f, args):
+    """spectrum, bulk drag, wall correction, local drag factor (None when unreachable), viscosity of one model object"""
+    return efl([scalar(model(f, *args)), model.drag_coeff, wall_correction(model), local_drag_factor(model), scalar(model.viscosity)])
+
+
+def nacl(convert, x, t, p):
+    """molality <-> molarity of NaCl through the anchored conversion functions of salty_water: the molecular weight is the
+    fourth parameter, which the library itself passes by keyword - a private keyword that may be renamed (then: by position)"""
+    try:
+        return convert(x, t, p, molecular_weight=58.4428)
+    except TypeError as e:
+        if "molecular_weight" not in str(e):
+            raise
+        return convert(x, t, p, 58.4428)
+
+
+def salt_density(sw, lk, t, m, p):
+    """density of the salt solution at a MOLALITY: the private function of salty_water while it is reachable; otherwise the
+    PUBLIC density_of_water at the molarity the anchored molality_to_molarity gives for it (brentq brings the molality
+    back to ~1e-12; at the model's edge m = 6 that can land outside the validity range: then the observation is skipped)"""
+    try:
+        fn = sw._density_of_salt_solution
+    except TieLost:
+        try:
+            return ef(scalar(lk.density_of_water(t, nacl(sw.molality_to_molarity, m, t, p), p)))
+        except ValueError:
+            return "?"
+    return ef(scalar(fn(t, m, p)))
+
+
+_VOLTS = []
+
+
+def calibrated_model(lk, cfg, **kw):
+    """The model object the PUBLIC calibrate_force builds, configures (drag=…, fixed_diode=…, fixed_alpha=…) and fits:
+    `CalibrationResults.model`.  Only used when the private slot / setter calibrate_force itself uses is not reachable
+    under its name.  The data are one fixed synthetic trace (an Ornstein-Uhlenbeck process, corner frequency 2 kHz at
+    78.125 kHz): WHAT is fitted does not matter, only that calibrate_force runs; a fit that fails on this trace says
+    nothing about the property (None: the case is skipped)."""
+    if not _VOLTS:
+        from common import Rng
+
+        r, a, x, xs = Rng(20), math.exp(-2 * PI * 2000.0 / 78125.0), 0.0, []
+        for _ in range(8192):
+            x = a * x + math.sqrt(1 - a * a) * r.normal()
+            xs.append(x)
+        _VOLTS.append(np.array(xs))
+    import signal
+
+    def too_slow(*_):
+        raise TimeoutError("calibrate_force on the synthetic trace")
+
+    pars = {k_: v for k_, v in cfg.items() if k_ != "bead_diameter" and k_ != "temperature"}
+    try:
+        if len(_VOLTS) == 1:
+            _VOLTS.append(lk.calibrate_force(_VOLTS[0], 1.0, 20.0, sample_rate=78125.0, num_points_per_block=100))  # (loads scipy.optimize)
+        # a fit that wanders (a diode frequency fixed far below the fitted range, say) is abandoned after a second
+        before = signal.signal(signal.SIGALRM, too_slow)
+        signal.setitimer(signal.ITIMER_REAL, 1.0)
+        try:
+            return lk.calibrate_force(_VOLTS[0], cfg["bead_diameter"], cfg["temperature"], sample_rate=78125.0, num_points_per_block=100,
+                                      **pars, **kw).model
+        finally:
+            signal.setitimer(signal.ITIMER_REAL, 0.0)
+            signal.signal(signal.SIGALRM, before)
+    except Exception:
+        return None
 
 
 def ef(x):
@@ -145,7 +318,8 @@ def ef(x):
 
 
 def efl(xs):
-    return "[" + ",".join(ef(x) for x in xs) + "]"
+    """a list of doubles; None stands for an observation that could not be made (unreachable private bookkeeping): "?" """
+    return "[" + ",".join("?" if x is None else ef(x) for x in xs) + "]"
 
 
 def eo(x):
@@ -326,7 +500,7 @@ def impl(case):
             return [ef(scalar(lk.viscosity_of_water(c["T"]))), ef(scalar(lk.viscosity_of_water(np.array([c["T2"]]))))]
         if k == "salt":
             t, m, p = c["T"], c["m"], c["p"]
-            mol = sw.molality_to_molarity(m, t, p, molecular_weight=58.4428)
+            mol = nacl(sw.molality_to_molarity, m, t, p)
             out = [ef(mol)]
             out.append(ef(scalar(lk.viscosity_of_water(t, mol, p))))
             out.append(ef(scalar(lk.density_of_water(t, mol, p))))
@@ -335,19 +509,24 @@ def impl(case):
             # neighbours for monotonicity (molality m2 > m, temperature T2 > T) through the detail functions
             m2, t2 = c["m2"], c["T2"]
             out.append(ef(1e-6 * scalar(sw.zero_pressure_viscosity(t, m2)) * (1.0 + scalar(sw.pressure_factor(t, m2)) * p / 1000)))
-            out.append(ef(scalar(sw._density_of_salt_solution(t, m2, p))))
+            out.append(salt_density(sw, lk, t, m2, p))
             out.append(ef(1e-6 * scalar(sw.zero_pressure_viscosity(t2, m)) * (1.0 + scalar(sw.pressure_factor(t2, m)) * p / 1000)))
             # m = 0 through the public API (pressure given, molarity 0): joins the water values
             out.append(ef(scalar(lk.viscosity_of_water(t, 0.0, p))))
             out.append(ef(scalar(lk.density_of_water(t, 0.0, p))))
             # brentq round trip
-            out.append(ef(sw.molarity_to_molality(mol, t, p, molecular_weight=58.4428)))
+            out.append(ef(nacl(sw.molarity_to_molality, mol, t, p)))
             return out
         if k == "saltbad":
             t, m, p = c["T"], c["m"], c["p"]
             which = c["which"]
             if which == "dens":
-                return [ef(scalar(sw._density_of_salt_solution(t, m, p)))]
+                try:
+                    fn = sw._density_of_salt_solution
+                except TieLost:
+                    # the validity check behind the public functions is what the 'dens_api' and 'visc' cases ask
+                    return ["?"]
+                return [ef(scalar(fn(t, m, p)))]
             if which == "visc":
                 return [ef(scalar(lk.viscosity_of_water(t, m, p)))]  # m is a molarity here
             if which == "dens_api":
@@ -364,25 +543,47 @@ def impl(case):
             f = np.array([c["f"]])
             args = call_args(c)[1:]
             out = [scalar(model(f, *args))]
-            model._set_drag(c["gamma"])  # the same object, now carrying a drag coefficient from elsewhere
+            set_drag = priv(model, "_set_drag")
+            if set_drag is not MISSING:
+                set_drag(c["gamma"])  # the same object, now carrying a drag coefficient from elsewhere
+            else:
+                # the private setter is not reachable: the PUBLIC route to the same transfer - calibrate_force(..., drag=gamma)
+                # hands back the model object it configured and fitted
+                model = calibrated_model(lk, c["cfg"], drag=c["gamma"])
+                if model is None:
+                    return ["?"]
             out.append(scalar(model(f, *args)))
             cur = model
             for st in c["steps"]:
-                cur = cur._motion_blur(st[1]) if st[0] == "B" else cur._alias_model(st[1], st[2])
+                cur = derive(pm, cur, st)
                 out.append(scalar(cur(f, *args)))
-            return [efl(out + [cur.drag_coeff, cur._drag])]
+            last = cur if priv(cur, "drag_coeff") is not MISSING else model  # (a wrapper composed by `derive` carries no attributes)
+            return [efl(out + [last.drag_coeff, corrected_drag(last)])]
         if k == "fixeddiode":
             model = lk.PassiveCalibrationModel(**c["cfg"])
-            # what calibrate_force(..., fixed_diode=…, fixed_alpha=…) does to the model it is about to fit
-            model._filter = cm.FixedDiodeModel(c["fix"][0], c["fix"][1])
+            flt = cm.FixedDiodeModel(c["fix"][0], c["fix"][1])
+            installed = priv(model, "_filter") is not MISSING
+            if installed:
+                # what calibrate_force(..., fixed_diode=…, fixed_alpha=…) does to the model it is about to fit
+                try:
+                    model._filter = flt
+                except AttributeError:  # (kept as a read-only alias of the real slot)
+                    installed = False
+            if not installed:
+                # the model keeps its filter in a slot this harness does not know any more (assigning `_filter` would only
+                # create a stray attribute): the PUBLIC route - calibrate_force itself installs the fixed filter and hands
+                # back the model it fitted (an object that has been called hundreds of times already)
+                model = calibrated_model(lk, c["cfg"], fixed_diode=c["fix"][0], fixed_alpha=c["fix"][1])
+                if model is None:
+                    return ["?"]
             cur = model
             for st in c["steps"]:
-                cur = cur._motion_blur(st[1]) if st[0] == "B" else cur._alias_model(st[1], st[2])
+                cur = derive(pm, cur, st)
             f = np.array([c["f"]])
             out = []
             for pair in c["calls"]:  # the SAME objects, one call after the other (a fit calls the model hundreds of times)
                 free = [v for v, fixed in zip(pair, c["fix"]) if fixed is None]
-                out.append(scalar(model._filter(f, *free)))
+                out.append(scalar(flt(f, *free)))  # (the filter object itself: the one installed in the model on the direct route)
                 out.append(scalar(model(f, c["fc"], c["D"], *free)))
                 out.append(scalar(cur(f, c["fc"], c["D"], *free)))
             return [efl(out)]
@@ -423,23 +624,20 @@ def impl(case):
             lineage, first = [model], [scalar(model(f, *args))]
             for st in c["steps"]:
                 cur = lineage[-1]
-                lineage.append(cur._motion_blur(st[1]) if st[0] == "B" else cur._alias_model(st[1], st[2]))
+                lineage.append(derive(pm, cur, st))
                 first.append(scalar(lineage[-1](f, *args)))
             # … and again once the whole lineage exists, youngest first: deriving a model leaves its parent as it was
             again = [scalar(m(f, *args)) for m in reversed(lineage)][::-1]
-            return [efl(first), efl(again),
-                    efl([scalar(model(f, *args)), model.drag_coeff, model._drag_correction_factor,
-                         scalar(model._to_local_drag_coefficient), scalar(model.viscosity)])]
+            return [efl(first), efl(again), model_state(model, f, args)]
         if k in ("passive", "passiveblur", "passivealias"):
             model = lk.PassiveCalibrationModel(**c["cfg"])
             f = np.array([c["f"]])
             args = call_args(c)[1:]
             if k == "passive":
-                return [efl([scalar(model(f, *args)), model.drag_coeff, model._drag_correction_factor,
-                             scalar(model._to_local_drag_coefficient), scalar(model.viscosity)])]
+                return [model_state(model, f, args)]
             if k == "passiveblur":
-                return [ef(scalar(model._motion_blur(c["T"])(f, *args)))]
-            return [ef(scalar(model._alias_model(c["fs"], c["n"])(f, *args)))]
+                return [ef(scalar(derive(pm, model, ["B", c["T"]])(f, *args)))]
+            return [ef(scalar(derive(pm, model, ["A", c["fs"], c["n"]])(f, *args)))]
     except Exception as e:
         n = _nops(case)
         return [errname(e)] * n
@@ -569,17 +767,24 @@ def dec(s):
     """answer string -> float | list of floats | error token"""
     if s.startswith("["):
         inner = s[1:-1]
-        return [dec_float(x) for x in inner.split(",")] if inner else []
+        return [None if x == "?" else dec_float(x) for x in inner.split(",")] if inner else []
     if s == "nan" or s.startswith("b"):
         return dec_float(s)
     return s
 
 
+def unobserved(v):
+    """an observation the harness could not make ("?" as a whole answer, None inside a list): it says nothing about the
+    code, so neither the comparison with the model nor the oracle looks at it"""
+    return v is None or v == "?"
+
+
 REL = 1e-9
+ULPS = 1e-15  # a few last bits: the bounds of the theorems are about reals; a rearranged formula may round to the other side of an attained bound
 
 
 def agree(case, i, ia, ma):
-    if ma == OUTSIDE:
+    if ma == OUTSIDE or ia == "?":
         return True
     a, m = dec(ia), dec(ma)
     if isinstance(a, str) or isinstance(m, str):
@@ -592,7 +797,7 @@ def agree(case, i, ia, ma):
         if case["op"] == "drag":
             mod = math.hypot(a[0], a[1])
             return all(abs(x - y) <= REL * mod for x, y in zip(a, m))
-        return all(close(x, y, REL, 1e-300) for x, y in zip(a, m))
+        return all(close(x, y, REL, 1e-300) for x, y in zip(a, m) if x is not None)
     return close(a, m, REL, 1e-300)
 
 
@@ -853,11 +1058,13 @@ def oracle(case, ia):
     c = case
     k = c["op"]
     vals = [dec(a) for a in ia]
-    errs = [v for v in vals if isinstance(v, str)]
+    if all(unobserved(v) for v in vals):
+        return None  # nothing could be observed (a private name the case is built on is gone and there is no public route)
+    errs = [v for v in vals if isinstance(v, str) and v != "?"]
     expect_err = c.get("expect")
     if expect_err is not None:
         # malformed stream: the documented error, never data
-        if all(v == expect_err for v in vals):
+        if all(v == expect_err for v in vals if not unobserved(v)):
             return None
         return f"documented-error: expected {expect_err} for {k} {c.get('why', '')}, implementation answered {ia[:3]}"
     if k == "contact":
@@ -880,7 +1087,7 @@ def oracle(case, ia):
         return f"unexpected-error: {k} inside its validity domain raised {errs[0]}"
     flat = []
     for v in vals:
-        flat.extend(v if isinstance(v, list) else [v])
+        flat.extend(x for x in (v if isinstance(v, list) else [v]) if not unobserved(x))
     if any(math.isnan(x) or math.isinf(x) for x in flat):
         return f"not-finite: {k} returned a non-finite number inside its validity domain: {ia[:4]}"
     T = 1e-9
@@ -896,7 +1103,8 @@ def oracle(case, ia):
         a = c["alpha"]
         if not _rel(v, o_diode(c["f"], c["fd"], a), T):
             return f"diode-equation: got {v!r}, expected {o_diode(c['f'], c['fd'], a)!r}"
-        if not (a * a <= v <= 1.0) or (a < 1 and c["f"] / c["fd"] < 1e7 and not a * a < v):
+        resolvable = (1 - a * a) / (1 + (c["f"] / c["fd"]) ** 2) > 1e-12 * a * a  # else alpha^2 + the rest rounds to alpha^2
+        if not (a * a * (1 - ULPS) <= v <= 1.0 + ULPS) or (resolvable and not a * a < v):
             return f"diode-bounds: alpha^2 < g <= 1 violated: g={v!r} alpha={a!r}"
         return None
     if k == "sinc":
@@ -1071,7 +1279,7 @@ def oracle(case, ia):
             strict = c["m2"] - m > 1e-7
             if visc_m2 < visc * (1 - 1e-12) or (strict and not visc_m2 > visc):
                 return f"viscosity-increases-with-NaCl: eta(m={m!r}) = {visc!r}, eta(m={c['m2']!r}) = {visc_m2!r} at T={t!r}, p={p!r}"
-            if dens_m2 < dens * (1 - 1e-12) or (strict and not dens_m2 > dens):
+            if not unobserved(dens_m2) and (dens_m2 < dens * (1 - 1e-12) or (strict and not dens_m2 > dens)):
                 return f"density-increases-with-NaCl: rho(m={m!r}) = {dens!r}, rho(m={c['m2']!r}) = {dens_m2!r} at T={t!r}, p={p!r}"
         if c["T2"] > t:
             strict = c["T2"] - t > 1e-6
@@ -1203,7 +1411,7 @@ def oracle(case, ia):
                 else:
                     x = Fraction(d * 1e-6 / 2.0) / Fraction(l * 1e-6)
                     e_corr = float(1 / (o_brenner_den(x) if cfg["axial"] else o_faxen_den(x)))
-            if not _rel(corr, e_corr, 1e-9 / max(1e-3, 1 - (d / 2) / l if l else 1)) or not _rel(local, e_local, 1e-9):
+            if not _rel(corr, e_corr, 1e-9 / max(1e-3, 1 - (d / 2) / l if l else 1)) or not (unobserved(local) or _rel(local, e_local, 1e-9)):
                 return f"passive-model-wall-correction: correction {corr!r} (expected {e_corr!r}), local drag factor {local!r} (expected {e_local!r})"
             return None
         if k == "passiveblur":
@@ -1245,7 +1453,7 @@ def _oracle_fixeddiode(c, got):
         if not _rel(g, e_g, 1e-9):
             return f"diode-equation: {what}: filter = {g!r}, alpha^2 + (1 - alpha^2)/(1 + (f/f_diode)^2) at f_diode={fd!r}, alpha={a!r} is {e_g!r}"
         resolvable = (1 - a * a) / (1 + (f / fd) ** 2) > 1e-12 * a * a  # else alpha^2 + the rest rounds to alpha^2
-        if not (a * a <= g <= 1.0) or (resolvable and not a * a < g):
+        if not (a * a * (1 - ULPS) <= g <= 1.0 + ULPS) or (resolvable and not a * a < g):
             return f"diode-bounds: {what}: alpha^2 < g <= 1 violated: g={g!r} alpha={a!r}"
         full, _, _ = o_passive_psd(dict(c, fd=fd, alpha=a))
         if not _rel(p, full(f), 1e-8):
@@ -1341,7 +1549,7 @@ def nontrivial(case, ia):
         return False
     if case["op"] == "waterseq":
         return sum(1 for a in ia if not isinstance(dec(a), str)) >= 2
-    if any(isinstance(dec(a), str) for a in ia):
+    if any(isinstance(dec(a), str) and a != "?" for a in ia) or all(a == "?" for a in ia):
         return False
     k = case["op"]
     if k == "chain":
